@@ -66,7 +66,8 @@ CHECKS = {
               'before/after start-up on ZooKeeper alone.', '5/C08'),
     'C09': _s('BFS over histories of ZooKeeper-level events driving the real '
               'Master/ZkBackend/masterapi on an in-memory ZooKeeper, incl. '
-              'restarts and skipped cycles; after every init_schedule/'
+              'restarts (also onto a stray double record) and skipped cycles; '
+              'after every init_schedule/'
               'reschedule the whole /placement tree is compared with the '
               'model (existence and content), and so is the reference '
               'placement kept in the data of the /placement node.', '5/C09', note=NOTE_B),
@@ -85,7 +86,8 @@ CHECKS = {
     'C11': _s('At every state of a World-B BFS a fresh Master runs '
               'load_model() on a copy of the stored tree and is compared '
               'with every record under a healthy server; one-partition, '
-              'two-partition and lease-next-to-reboot configurations.',
+              'two-partition (also with a trait learned from server records '
+              'only) and lease-next-to-reboot configurations.',
               '5/C11',
               note=NOTE_B),
     'C06': _s('Bounded-exhaustive sweep of the real Allocation/Cell code: every '
@@ -115,7 +117,7 @@ CHECKS = {
                    'priority-0 = infinite utilisation by definition; boost '
                    'clause one-directional; integer menus; full 36x24 product '
                    'only for <=2 nodes, reduced menus (named in evidence) above; '
-                   'rank 0 only with rank adjustment 0',
+                   'rank adjustment may exceed the rank (negative boosted rank)',
               tech=TECH_BOUNDX, engine='boundx'),
     'C12': _s('Bounded-exhaustive sweep of the real EventMgr._synchronize/'
               '_cache + fs.write_safe on a temp root with an in-memory '
@@ -143,7 +145,8 @@ CHECKS = {
               'node boot, manager killed after its k-th link operation, '
               'container exit/abort/oom, lagging tombstones, completion of '
               'each cleanup link in two steps (finish(); unlink) with any '
-              'event in between; link invariants after every handler call '
+              'event in between, or failing inside finish(); cache-file '
+              'inodes re-used between generations in two configurations; link invariants after every handler call '
               'and crash point, reconciliation clauses after every '
               '_synchronize, and a quiescence clause (queue drained, manager '
               'active: running links match the current cache generation, '
@@ -173,7 +176,10 @@ CHECKS = {
               'directory, each audited syscall by syscall and required to '
               'match some serial order of the reference; owners are container '
               'unique names (two incarnations of one instance among them), '
-              'release alphabets include missing caller identities.',
+              'release alphabets include missing caller identities; the '
+              'network service also under faults: every external call '
+              '(netdev/iptables) of create/delete fails once as a counted '
+              'deviation, followed by retry / delete / restart.',
               '5/C14',
               note='netdev/iptables/subproc recorders; owner exists iff its '
                    'path exists; GC/unlink_all = sequences of atomic per-entry '
@@ -204,7 +210,9 @@ CHECKS = {
                    'when the plain attribute is requested',
               tech=TECH_BOUNDX + ' with sweep-wide collision detection',
               engine='boundx'),
-    'C16': _s('Bounded-exhaustive sweep over manifests (endpoint lists x '
+    'C16': _s('Start = the real _run.run (resource requests to exec_pid1), '
+              'finish = the real _finish.finish, fakes at module seams only. '
+              'Bounded-exhaustive sweep over manifests (endpoint lists x '
               'ports x infra, ephemeral tcp/udp 0-2, passthrough menus, vring, '
               'shared_network, shared_ip, all four environments (pool oracle '
               'per environment), 3 enumerated port '
@@ -216,8 +224,11 @@ CHECKS = {
               'single-fault enumeration of the finish slice (every ipset/'
               'conntrack call, rule/spec unlink and the network-service '
               'delete fails once, finish repeated until it completes, host '
-              'must end as before the start).', '5/C16',
-              note='only the network slices of run and finish are executed; '
+              'must end as before the start); plus single-fault enumeration '
+              'of the start (every external step of run() fails once, the '
+              'aborted container is flagged and finished).', '5/C16',
+              note='service clients, cgroups, image, fs_linux, unshare, '
+                   'newnet, apphook, subproc faked at module seams; '
                    'ipset CLI interpreted on Python sets; fake socket; no '
                    'firewall plugin installed',
               tech='bounded-exhaustive input enumeration against a before/'
@@ -274,7 +285,10 @@ CHECKS = {
               '0-2 trait limits, sets of <=2/3 existing reservations incl. '
               'distractors, replaced or new id, request traits, request sizes '
               'at/over/under every boundary in K/M/G spellings; plus every '
-              'history of <=3 create/update calls; independent sum oracle.',
+              'history of <=3 create/update calls; plus a unit-spelling sweep '
+              '(stored records in every documented spelling: binary / decimal '
+              'suffixes, plain bytes, case, padding); independent sum oracle '
+              'with its own conversion written from the docstring.',
               '5/C19',
               note='fake store shaped like LDAP from_entry with an and-filter '
                    'list; __wrapped__ with jsonschema-validated inputs; update '
